@@ -83,6 +83,11 @@ var threadStubs = map[string]stubFn{
 	"os.WriteFile":                               stubWriteFile,
 	"os.Stat":                                    stubStat,
 	"path/filepath.Abs":                          stubAbs,
+	"os.Getwd":                                   func(p *path, _ *frame, a []value) value { return tuple{p.mkStr(engineWorkDir), iface{}} },
+	"(*sync.Map).Load":                           stubSyncMapLoad,
+	"(*sync.Map).Store":                          stubSyncMapStore,
+	"(*sync.Map).LoadOrStore":                    stubSyncMapLoadOrStore,
+	"(*sync.Map).Delete":                         stubSyncMapDelete,
 	"golang.org/x/tools/go/packages.Load":        stubPackagesLoad,
 	"golang.org/x/tools/go/packages.PrintErrors": stubPrintErrors,
 }
@@ -570,7 +575,12 @@ func stubStat(p *path, _ *frame, a []value) value {
 	if !name.IsConcrete() {
 		p.unsupported("os.Stat on a symbolic name")
 	}
-	exists, planned := p.plan().files[name.Concrete()]
+	clean := name.Concrete()
+	if !strings.HasPrefix(clean, "/") {
+		clean = filepath.Join(engineWorkDir, clean)
+	}
+	clean = filepath.Clean(clean)
+	exists, planned := p.plan().files[clean]
 	if !planned {
 		p.unsupported("os.Stat on a file the harness did not plan: " + name.Concrete())
 	}
@@ -580,12 +590,64 @@ func stubStat(p *path, _ *frame, a []value) value {
 	return tuple{iface{}, iface{t: errorDynType, v: p.newError(p.mkStr("stat "+name.Concrete()+": no such file or directory"), "")}}
 }
 
+// engineWorkDir: the working directory of the modelled process (os.Getwd, relative paths of filepath.Abs).
+const engineWorkDir = "/work"
+
 func stubAbs(p *path, _ *frame, a []value) value {
 	name := a[0].(Str)
-	if !name.IsConcrete() || !strings.HasPrefix(name.Concrete(), "/") {
-		p.unsupported("filepath.Abs on a symbolic or relative path")
+	if !name.IsConcrete() {
+		p.unsupported("filepath.Abs on a symbolic path")
 	}
-	return tuple{p.mkStr(filepath.Clean(name.Concrete())), iface{}}
+	s := name.Concrete()
+	if !strings.HasPrefix(s, "/") {
+		s = filepath.Join(engineWorkDir, s)
+	}
+	return tuple{p.mkStr(filepath.Clean(s)), iface{}}
+}
+
+// sync.Map: a map from interface keys to interface values, keyed by the address of the sync.Map
+// (package-level caches: the state lives for the whole path, like any global).
+func (p *path) syncMap(recv value) *smap {
+	c, ok := recv.(*value)
+	if !ok || c == nil {
+		p.runtimePanic("nil pointer dereference", "sync.Map")
+	}
+	if p.syncMaps == nil {
+		p.syncMaps = map[*value]*smap{}
+	}
+	m := p.syncMaps[c]
+	if m == nil {
+		m = &smap{}
+		p.syncMaps[c] = m
+	}
+	return m
+}
+
+func stubSyncMapLoad(p *path, _ *frame, a []value) value {
+	m := p.syncMap(a[0])
+	if i := p.mapFind(m, a[1]); i >= 0 {
+		return tuple{copyVal(m.vals[i]), p.tc.tt}
+	}
+	return tuple{iface{}, p.tc.ff}
+}
+
+func stubSyncMapStore(p *path, _ *frame, a []value) value {
+	p.mapInsert(p.syncMap(a[0]), a[1], a[2])
+	return nil
+}
+
+func stubSyncMapLoadOrStore(p *path, _ *frame, a []value) value {
+	m := p.syncMap(a[0])
+	if i := p.mapFind(m, a[1]); i >= 0 {
+		return tuple{copyVal(m.vals[i]), p.tc.tt}
+	}
+	p.mapInsert(m, a[1], a[2])
+	return tuple{a[2], p.tc.ff}
+}
+
+func stubSyncMapDelete(p *path, _ *frame, a []value) value {
+	p.mapDelete(p.syncMap(a[0]), a[1])
+	return nil
 }
 
 func stubPackagesLoad(p *path, fr *frame, a []value) value {
